@@ -1328,13 +1328,15 @@ function runWorld(job) {
           let cur = next
           let ok = true
           for (let i = 0; i < p.length - 1; i += 1) {
-            // only plain objects are patched into (the explicit tree below names exactly these paths)
-            if (!isObj(cur[p[i]]) || Array.isArray(cur[p[i]])) {
+            // only existing containers are patched into (the explicit tree below names exactly these paths)
+            if (!isObj(cur[p[i]])) {
               ok = false
               break
             }
             cur = cur[p[i]]
           }
+          // (an array is patched at an existing position only: no holes, no growth)
+          if (ok && Array.isArray(cur) && !(Number.isInteger(p[p.length - 1]) && p[p.length - 1] < cur.length)) ok = false
           if (ok) cur[p[p.length - 1]] = dec(v)
           else patchedAll = false
         }
